@@ -9,7 +9,26 @@ claimed = [c["property_id"] for c in man["checks"]]
 names = sys.argv[1:] or sorted(os.path.basename(d) for d in glob.glob(os.path.join(VERIF, "benign", "*-*")))
 mir_props = ["C01", "C17"]  # SKIP_MIR=1: these are skipped; MIR-based rules of other properties are switched off (VERIF_SKIP_MIR_RULES)
 
+import queue
+JOBS = int(os.environ.get("JOBS", "4"))
+caches = queue.Queue()
+for i in range(JOBS):
+    c = os.path.join(VERIF, ".cache", "w%d" % i)
+    if os.environ.get("SKIP_MIR") != "1" and not os.path.exists(os.path.join(c, "target")) and os.path.exists(os.path.join(VERIF, ".cache", "target")):
+        os.makedirs(c, exist_ok=True)
+        subprocess.check_call(["cp", "-r", os.path.join(VERIF, ".cache", "target"), os.path.join(c, "target")])
+    caches.put(c)
+
+
 def one(name):
+    cache = caches.get()
+    try:
+        return one_(name, cache)
+    finally:
+        caches.put(cache)
+
+
+def one_(name, cache):
     d = os.path.join(VERIF, "benign", name)
     tmp = tempfile.mkdtemp(prefix="vben-", dir="/tmp")
     etmp = tempfile.mkdtemp(prefix="vbenev-", dir="/tmp")
@@ -24,7 +43,7 @@ def one(name):
                 continue
             if os.environ.get("ONLY") and pid not in os.environ["ONLY"].split(","):
                 continue
-            env = dict(os.environ, VERIF_REPO=tmp, VERIF_EVIDENCE_DIR=etmp)
+            env = dict(os.environ, VERIF_REPO=tmp, VERIF_EVIDENCE_DIR=etmp, VERIF_CACHE=cache)
             if os.environ.get("SKIP_MIR") == "1":
                 env["VERIF_SKIP_MIR_RULES"] = "1"
             rr = subprocess.run([os.path.join(VERIF, "bin/check"), pid, "--quick"], env=env, capture_output=True, text=True)
@@ -36,7 +55,7 @@ def one(name):
         shutil.rmtree(tmp, ignore_errors=True); shutil.rmtree(etmp, ignore_errors=True)
 
 tot = fa = 0
-with ThreadPoolExecutor(max_workers=int(os.environ.get("JOBS", "4"))) as ex:
+with ThreadPoolExecutor(max_workers=JOBS) as ex:
     for name, status, alarms in ex.map(one, names):
         tot += 1
         if alarms: fa += 1
